@@ -50,6 +50,7 @@ const std::vector<std::string> kDefs = {
   /*0*/ "", /*1*/ "X1", /*2*/ "D1", /*3*/ "D2", /*4*/ "D1\xE2\x88\xAAX1", /*5*/ "X1\\X1", /*6*/ " X1 ", /*7*/ "D1\xE2\x88\xAA" "D2",
   /*8*/ "\xE2\x84\xAC(X1)", /*9*/ "X9", /*10*/ "(((", /*11*/ "1=1", /*12*/ "[a\xE2\x88\x88X1] {a}", /*13*/ "F1[X1]",
   /*14*/ "X1\xE2\x88\xAAX1", /*15*/ "[a\xE2\x88\x88X1] a=a", /*16*/ "D2\xE2\x88\xAAX1", /*17*/ "X2",
+  /*18*/ "\xE2\x88\x80" "a\xE2\x88\x88X1 a<a", /*19*/ "{1}\xE2\x88\xAAX1",   // well-typed exactly when X1 is a constant set (element traits: ordered / converts from integer)
 };
 // name classes for SetAliasFor, relative to the letter L of the target's kind
 std::string nameFor(char L, int cls) {
@@ -76,7 +77,7 @@ const std::vector<std::string> kForms = { /*0*/ "plur", /*1*/ "sing,gent", /*2*/
 const std::vector<std::string> kFormTexts = { /*0*/ "f", /*1*/ "\xD1\x84\xD0\xBE\xD1\x80\xD0\xBC\xD0\xB0" };
 
 enum OpK { EMPLACE = 1, ERASE, SETEXPR, SETALIAS, SETTERM, SETTEXT, SETCONV, MOVE, INSBULK, RESET,
-           INSREC, INSFROM, INSFROMBULK, LOAD, TRACK, UNTRACK, MERGE, DELDUP, SETFORM, UPDATE };
+           INSREC, INSFROM, INSFROMBULK, LOAD, TRACK, UNTRACK, MERGE, DELDUP, SETFORM, UPDATE, SETTYPE };
 
 // ------------------------------------------------------------------------------------------------------------------
 struct Obj {
@@ -218,6 +219,7 @@ struct Alpha {
   bool erase{ true }, move{ true }, reset{ true };
   std::vector<int> recUid, recAlias, recKind, fromOther, fromOtherBulk, loads, trackFlags, merges; bool untrack{ false }, deldup{ false }, update{ false };
   std::vector<int> forms, formTexts;
+  std::vector<int> typeKinds;   // Schema::SetTypeFor (kind change; public on Schema only, reached through the private members)
   int maxLive{ 4 };
   int seedSchemas{ 4 };   // prefix of the mode's seed list
   std::string describe() const {
@@ -232,6 +234,7 @@ struct Alpha {
     if (!trackFlags.empty()) s += "; Track flags{" + lst(trackFlags, nullptr) + "}" + (untrack ? " StopTracking" : "");
     if (!merges.empty()) s += "; MergeWith{" + lst(merges, nullptr) + "}"; if (deldup) s += "; DeleteDuplicates";
     if (!forms.empty()) s += "; SetTermFormFor forms{" + lst(forms, &kForms) + "} x texts{" + lst(formTexts, &kFormTexts) + "}";
+    if (!typeKinds.empty()) { s += "; Schema::SetTypeFor kinds{"; for (int k : typeKinds) s += std::string(kKindName[k]) + " "; s += "}"; }
     s += "; <= " + std::to_string(maxLive) + " live constituents; uid policy {ascending, descending} x " + std::to_string(seedSchemas) + " seed schemas";
     return s;
   }
@@ -252,6 +255,10 @@ Alpha profileFor(const std::string& mode, char level) {
       a.termTexts = { 2, 3 }; a.defTexts = { 3 }; a.convs = { 2 }; a.bulks = { 0 }; a.seedSchemas = 4;
       a.recUid = { 0 }; a.recAlias = { 5 }; a.recKind = { 0, 1 };
       if (mode == "incr") a.seedSchemas = 5;
+    } else if (level == 'T') { // kind changes: what other constituents may do with the elements of a set depends on its kind
+      a.kinds = { 0, 1, 3 }; a.defs = { 0, 1, 18, 19 }; a.exprDefs = { 1, 18, 19 }; a.names = { 2 }; a.subst = { 1 };
+      a.termTexts = {}; a.defTexts = {}; a.convs = {}; a.bulks = {}; a.move = false; a.seedSchemas = 2;
+      a.typeKinds = { 0, 4, 1, 5 };   // base, constant, term, structured (no LOGIC-typed kinds: see assumptions)
     } else {                   // 'N': deep and narrow
       a.kinds = { 1 }; a.defs = { 1, 4 }; a.exprDefs = { 1, 3, 4 }; a.names = { 2 }; a.subst = { 0 };
       a.termTexts = { 3 }; a.defTexts = {}; a.convs = {}; a.bulks = {}; a.move = false; a.seedSchemas = 2;
@@ -395,6 +402,7 @@ struct SchemaSys {
     for (int v : al.merges) if (n + 2 <= al.maxLive) add(MERGE, v);
     if (al.deldup && n > 1) add(DELDUP);
     for (int i = 0; i < n; ++i) for (int fm : al.forms) for (int t : al.formTexts) add(SETFORM, i, fm, t);
+    for (int i = 0; i < n; ++i) for (int k : al.typeKinds) add(SETTYPE, i, k);
     (void)kindAt;
     return ops;
   }
@@ -424,6 +432,7 @@ struct SchemaSys {
       case MERGE: return "MergeWith(other" + std::to_string(op.a) + ")";
       case DELDUP: return "DeleteDuplicates()";
       case SETFORM: return "SetTermFormFor(" + I(op.a) + "," + tab(kForms, op.b) + "," + tab(kFormTexts, op.c) + ")";
+      case SETTYPE: return std::string("Schema::SetTypeFor(") + I(op.a) + "," + kKindName[op.b & 7] + ")";
       default: return "op" + std::to_string(op.k);
     }
   }
@@ -469,6 +478,7 @@ struct SchemaSys {
       case MERGE: { RSForm g; buildOther(g, op.a); f.Ops().MergeWith(g); break; }
       case DELDUP: { const auto tr = f.Ops().DeleteDuplicates(); for (const auto& [from, to] : tr) r.erased.push_back(from); std::sort(r.erased.begin(), r.erased.end()); break; }
       case SETFORM: if (auto u = uidAt(op.a)) boolRes(f.SetTermFormFor(*u, tabs(kFormTexts, op.c), ccl::lang::Morphology{ tabs(kForms, op.b) })); break;
+      case SETTYPE: if (auto u = uidAt(op.a)) boolRes(f.core.schema.SetTypeFor(*u, kKinds[static_cast<size_t>(op.b & 7)])); break;
       default: break;
     }
     ++o.depth;
@@ -537,7 +547,7 @@ struct SchemaSys {
     switch (op.k) { case EMPLACE: return "Emplace"; case ERASE: return "Erase"; case SETEXPR: return "SetExpressionFor"; case SETALIAS: return "SetAliasFor"; case SETTERM: return "SetTermFor";
       case SETTEXT: return "SetDefinitionFor"; case SETCONV: return "SetConventionFor"; case MOVE: return "MoveBefore"; case INSBULK: return "InsertCopyBulk"; case RESET: return "ResetAliases";
       case INSREC: return "InsertCopyRecord"; case INSFROM: return "InsertCopyFrom"; case INSFROMBULK: return "InsertCopyFromBulk"; case LOAD: return "Load"; case UPDATE: return "UpdateState";
-      case TRACK: return "Track"; case UNTRACK: return "StopTracking"; case MERGE: return "MergeWith"; case DELDUP: return "DeleteDuplicates"; case SETFORM: return "SetTermFormFor"; default: return "op"; }
+      case TRACK: return "Track"; case UNTRACK: return "StopTracking"; case MERGE: return "MergeWith"; case DELDUP: return "DeleteDuplicates"; case SETFORM: return "SetTermFormFor"; case SETTYPE: return "SetTypeFor"; default: return "op"; }
   }
   static std::string firstDiff(const std::string& a, const std::string& b) {
     size_t i = 0; while (i < a.size() && i < b.size() && a[i] == b[i]) ++i;
@@ -620,7 +630,33 @@ struct SchemaSys {
   void checkRenameState(Obj& o, Ctx& c) { c.rep.count("evaluations"); c.rep.outcome("state:n=" + std::to_string(listOf(o.form).size())); }
 
   // ---- C07 --------------------------------------------------------------------------------------------------------
+  // Kind changes (profile T) leave alias letters that RSCore's loaders re-register, so the fresh object is a bare
+  // Schema loaded with the same formal records (Schema::Load + UpdateState: the batch path) and only the Schema-level
+  // part of the claim is compared: status / typification / arguments / value class / tree / dependency edges.
+  void checkIncrSchemaLevel(Obj& o, Ctx& c) {
+    const auto& live = o.form.core.schema; c.rep.count("evaluations");
+    ccl::semantic::Schema fresh;
+    for (const auto uid : o.form.List()) { if (!live.Contains(uid)) continue; const auto& r = live.At(uid); fresh.Load(ccl::semantic::RSConcept{ r.uid, r.alias, r.type, r.definition, r.convention }); }
+    fresh.UpdateState();
+    int incorrect = 0;
+    for (const auto uid : o.form.List()) {
+      if (!live.Contains(uid)) continue;
+      const auto& r = live.At(uid); const auto& a = live.InfoFor(uid); const auto& b = fresh.InfoFor(uid);
+      auto args = [](const ccl::semantic::ParsingInfo& p) { std::string s = "-"; if (p.arguments.has_value()) { s.clear(); for (auto& x : *p.arguments) s += x.name + ":" + x.type.ToString() + ";"; } return s; };
+      auto tree = [](const ccl::semantic::ParsingInfo& p) { return p.ast != nullptr ? ccl::rslang::AST2String::Apply(*p.ast) : std::string{}; };
+      auto ins = [&](const ccl::semantic::Schema& sc) { std::set<EntityUID> r2; for (auto u : sc.Graph().InputsFor(uid)) r2.insert(u); return setStr(r2); };
+      auto cmp = [&](const char* field, const std::string& l, const std::string& f2) { if (l != f2) c.fail(pid + ":stale-" + field, std::string(field) + " of " + r.alias + " [" + r.definition + "] differs from a freshly built schema", "live: " + l, "fresh: " + f2); };
+      c.rep.count("checks", 6);
+      const int sa = static_cast<int>(a.status), sb = static_cast<int>(b.status); if (sa != 1) ++incorrect;
+      if (sa != sb) c.fail(pid + ":stale-parse-status:live=" + statusName(sa) + ",fresh=" + statusName(sb), "parse status of " + r.alias + " [" + r.definition + "] differs from a freshly built schema", "live: " + statusName(sa) + " " + typeStr(a) + " " + tree(a), "fresh: " + statusName(sb) + " " + typeStr(b) + " " + tree(b));
+      else { cmp("typification", typeStr(a), typeStr(b)); cmp("arguments", args(a), args(b)); cmp("value-class", std::to_string(static_cast<int>(a.valueClass)), std::to_string(static_cast<int>(b.valueClass))); cmp("syntax-tree", tree(a), tree(b)); }
+      cmp("dependency-edges", ins(live), ins(fresh));
+    }
+    c.rep.outcome("schema-level:n=" + std::to_string(o.form.List().size()) + ",incorrect=" + std::to_string(incorrect));
+  }
+
   void checkIncr(Obj& o, Ctx& c) {
+    if (!al.typeKinds.empty()) { checkIncrSchemaLevel(o, c); return; }
     const std::string jmin = libJSON(o.form, true);
     auto fr = ccl::api::RSFormJA::FromJSON(jmin);
     const Obs L = observe(o.form), F = observe(fr.data());
